@@ -147,6 +147,7 @@ func c18Gen(tier string, seed int64) []fw.Case {
 			for _, after := range []int{0, 2} {
 				for _, frag := range []int{1, 3} {
 					add(c18Desc{Kind: "wrong-type", Role: role, Text: text, Writes: make([]int, after), Reads: []int{frag}}, fmt.Sprintf("wrong-type/%s/text=%v/after-%d/frags=%d", role, text, after, frag))
+					add(c18Desc{Kind: "wrong-type", Role: role, Text: text, Writes: make([]int, after), Reads: []int{frag}, Code: 1}, fmt.Sprintf("wrong-type-empty/%s/text=%v/after-%d/frags=%d", role, text, after, frag))
 				}
 			}
 		}
@@ -530,7 +531,11 @@ func c18WrongType(r *fw.R, d c18Desc) {
 	for range d.Writes {
 		peer.Send(wire.Data(opOf(typ), true, []byte("good")))
 	}
-	for _, f := range fragments(rng, opOf(other), false, []byte("wrong type payload"), d.Reads[0]) {
+	wrong := []byte("wrong type payload")
+	if d.Code == 1 {
+		wrong = nil // a message of the wrong type is a message of the wrong type, also when it carries no payload
+	}
+	for _, f := range fragments(rng, opOf(other), false, wrong, d.Reads[0]) {
 		peer.Send(f)
 	}
 	peer.Send(wire.Data(opOf(typ), true, []byte("after")))
